@@ -220,13 +220,15 @@ static void run_body(int body, int nthr, int var)
 		vf_seed_values[0] = (uint32_t)-1;
 		for (int i = 1; i < 8; i++)
 			vf_seed_values[i] = 1000u + (uint32_t)i * 7919u;
+		if (var == 2)
+			vf_seed_values[1] = vf_seed_values[2] = (uint32_t)-1; /* the refused value several times in a row */
 		for (int i = 0; i < nthr; i++)
 			tids[i] = T_SPAWN(worker_hash, (void *)(intptr_t)(i + 1));
 		T_RELEASE();
 		for (int i = 0; i < nthr; i++)
 			T_JOIN(tids[i]);
 		T_FINISH();
-		if (var)
+		if (var == 1)
 		{
 			/* "at every later time": the process later switches the global string hash away from the
 			 * default and back (no thread is running any more) - the seed must not be drawn again */
@@ -278,7 +280,7 @@ struct cfg
 static const struct cfg CFGS[] = {
     {1, 2, 0, 2, 5}, {1, 2, 1, 2, 5}, {1, 3, 0, 1, 4}, {2, 2, 0, 2, 5}, {2, 2, 1, 2, 5}, {2, 3, 0, 1, 4}, {3, 2, 0, 2, 5},
     {3, 3, 0, 1, 3}, {4, 2, 0, 2, 5}, {4, 3, 0, 1, 4}, {5, 2, 0, 1, 3}, {1, 3, 1, 1, 3}, {2, 3, 1, 1, 3}, {3, 2, 1, 2, 4},
-    {4, 2, 1, 1, 2}, {5, 2, 1, 1, 2},
+    {4, 2, 1, 1, 2}, {5, 2, 1, 1, 2}, {4, 2, 2, 2, 3},
 };
 #define NCFG (int)(sizeof CFGS / sizeof CFGS[0])
 
